@@ -11,7 +11,9 @@ lib.scrypt.restype = None
 G = 64
 fails, samples = [], []
 for i in range(n_cases):
-    pw = bytes(rnd.randrange(256) for _ in range(rnd.choice([0, 1, 7, 33, 64, 65, 100])))
+    pw = bytes(rnd.randrange(256) for _ in range(rnd.choice([0, 1, 7, 33, 64, 65, 66, 100, 129])))
+    if pw and i % 3 == 1: pw = pw[:-1] + b"\x00"          # C strings: a caller passing sizeof(buf) hands over the terminator too
+    if pw and i % 7 == 3: pw = b"\x00" + pw[1:]
     salt = bytes(rnd.randrange(256) for _ in range(rnd.randrange(0, 80)))
     N = 1 << rnd.randrange(1, 12); r = rnd.randrange(1, 9); p = rnd.randrange(1, 5); dk = rnd.choice([1, 16, 31, 32, 33, 64, 100, rnd.randrange(1, 200)])
     if i == 0: pw, salt, N, r, p, dk = b"hackme", b"yellowsubmarine.", 32768, 8, 1, 32
